@@ -385,7 +385,15 @@ fn varlink_bridge(
                 } else {
                     let stdin = ::std::io::stdin();
                     let stdout = ::std::io::stdout();
-                    handle(resolver, stdin, stdout).map_err(|e| format!("Bridging: {e}"))?;
+                    let r = handle(resolver, stdin, stdout);
+                    if let Err(ref e) = r {
+                        if let Some(io_e) = e.downcast_ref::<std::io::Error>() {
+                            if io_e.kind() == std::io::ErrorKind::BrokenPipe {
+                                return Ok(());
+                            }
+                        }
+                    }
+                    r.map_err(|e| format!("Bridging: {e}"))?;
                     return Ok(());
                 }
             }
